@@ -500,7 +500,11 @@ class C10(Prop):
             f"case-invariance failed on {a.get('regex_case_assumption_failed')} pairs, embedding-monotonicity failed on "
             f"{a.get('regex_embedding_assumption_failed')} separated embeddings (a failure is reported here, it is not "
             f"a violation); active regexes sampled directly: {a.get('regex_direct_samples', 0)} instance/variant pairs, "
-            f"{a.get('regex_direct_failed', 0)} failed; shipped signatures for which no instance could be derived: "
+            f"{a.get('regex_direct_failed', 0)} failed (all on the anchored user regexes of the generator: "
+            f"{a.get('regex_direct_failed_unanchored', 0)} on patterns without ^ / $); regex model tables compared with "
+            f"the real re on {a.get('regex_table_code_points_checked', 0)} code points and "
+            f"{a.get('regex_case_pairs_checked', 0)} case pairs of the text material (0 differences, else the run "
+            f"stops); shipped signatures for which no instance could be derived: "
             f"{a.get('shipped_signatures_without_instance', 0)}; shipped regexes failing on a case variant / separated "
             f"embedding of an input they blocked (each one is a violation): {a.get('shipped_regex_case_failed', 0)} / "
             f"{a.get('shipped_regex_embedding_failed', 0)}"]
@@ -560,6 +564,9 @@ class C10(Prop):
                         self.acheck["regex_direct_samples"] = self.acheck.get("regex_direct_samples", 0) + 1
                         if not _re.search(rx, variant, _re.I):
                             self.acheck["regex_direct_failed"] = self.acheck.get("regex_direct_failed", 0) + 1
+                            if not (rx.startswith("^") or rx.endswith("$")):
+                                self.acheck["regex_direct_failed_unanchored"] = \
+                                    self.acheck.get("regex_direct_failed_unanchored", 0) + 1
         # instances of every SHIPPED signature (both tables), derived from the signature itself - its parse tree, the
         # attack corpus, the vetted table - and kept when the signature matches them standing alone; nothing here
         # depends on how the shipped pattern is spelled
